@@ -161,6 +161,8 @@ def run(ctx, report):
                 c = rlpclass.consumer_class(ev["term"])
                 if c[0] == "UNKNOWN":
                     bad.append((ev["sp"], c[1]))
+            elif ev.get("pseudo"):
+                continue  # a step `cursor = cursor.split_at(n).1` / `&cursor[n..]`: its amount is checked with the leaf (HEADER + ADVANCE)
             elif ev["kind"] in ("write", "escape", "move"):
                 bad.append((ev["sp"], ev["kind"]))
             elif ev["kind"] == "readcall":
@@ -223,11 +225,19 @@ def is_payload(m, e):
     d = getattr(m, "payload_def", None) or an.unique_def(m.payload_local)
     if d is None:
         return False
+    # the cursor is a field of a private cursor struct
+    pp = getattr(m, "payload_path", [])
+    cs = strip(cur)
+    if pp:
+        if cs.k == "field" and cs.a[1] == pp[0]:
+            b0 = strip(cs.a[0])
+            if b0.k == "mutated" and b0.a[1] in getattr(m, "cursor_chain", []):
+                return True
+        return False
     dexpr = an.rvalue_expr(d[2].rv, d[0], d[1])
     if same_value(cur, dexpr):
         return True
     # the current value of the cursor local itself (a cursor that is stepped by re-assignment has several definitions)
-    cs = strip(cur)
     if cs.k == "mutated" and cs.a[1] in getattr(m, "cursor_chain", []):
         return True
     # a later cursor of the chain (the slice handed on by value) denotes the same payload
